@@ -12,6 +12,18 @@ CHECKS = {
    design_ref="DESIGN.md section 4 C16, section 2 E4",
    note="Trusted: vf/ring.py canonical-form arithmetic, fractions.Fraction, sympy.factor_list (path splitting only). Degree range is enumerated (that is the property's quantifier), values are universally quantified. divmod lengths bounded (quick: len(P)<=6, len(D)<=4; thorough: 8/5) - stated bound; beyond it not claimed.",
    technique="contract-based deductive verification: real functions executed on symbolic ring elements; postcondition = ring identity decided by canonical form (complete decision procedure), path forking on coefficient zero tests"),
+ "C14": dict(
+   category="proof",
+   text="The real code objects of utils.diff_ulp (scalar branch, all flush/equal_nan settings; complex branch modularly), diff_log2ulp and ulp are executed on symbolic float16/32/64 scalars; every feasible path gives an SMT obligation `path => result == |rank(x)-rank(y)|` (rank = signed lattice position), discharged bit-precisely for ALL bit patterns. Lattice lemmas (rank is an order isomorphism onto an integer interval) make that number the count of representable steps; symmetry/additivity/k-th neighbour are LIA corollaries. ulp: x+ulp(x)=nextafter for every finite x, ulp(-x)=ulp(x), special values.",
+   design_ref="DESIGN.md section 4 C14, section 2 E2",
+   note="Trusted: E2 models of NumPy scalar operations (view, isfinite/isinf/isnan, frexp exponent, ldexp(1,k); cross-checked against NumPy each run); NumPy arithmetic = SMT-LIB FP with RNE; Python ints backed by 80-bit vectors with discharged no-overflow side conditions. List/ndarray dispatch branches not under contract.",
+   technique="contract-based deductive verification: symbolic execution of the real code object (shadowed builtins), per-path verification conditions in QF_FPBV discharged by z3/cvc5"),
+ "C18": dict(
+   category="proof",
+   text="MXCSR is ghost state; the real get_mxcsr/set_mxcsr/__call__ and the context class's __enter__/__exit__ run on a symbolic 32-bit register value for all 45 (FZ,DAZ,RN) argument combinations: the bit update equals the Intel-SDM mask/value spec, entry changes only requested bits of the value AT ENTRY (context may be created earlier under any other value), exit restores the entry value on normal and exceptional exit and never swallows; nesting to any depth by an induction lemma over those contracts.",
+   design_ref="DESIGN.md section 4 C18",
+   note="Trusted stubs: the ldmxcsr/stmxcsr thunks (justified by a ground obligation on the byte strings); Python with-statement semantics. Assumed, not decided: hardware observes the mode (last clause of the statement); single thread; the same context object is not re-entered (the code asserts it).",
+   technique="contract-based deductive verification: ghost-state contracts on the real methods, bit-vector verification conditions discharged by z3"),
 }
 NA_PENDING = "check not built yet in this session (planned, see DESIGN.md section 4)"
 NA = {
@@ -42,6 +54,7 @@ def main():
       "hooks": {"guard": "FUNCTIONAL_ALGORITHMS_VERIF", "enable": "no hooks are needed: engines instrument through namespaces/subclasses created in /verif; checks import /repo's working tree with PYTHONPATH=/repo", "baseline_off_cmd": "cd /repo && /venv/bin/python -m pytest -ra -q -p no:cacheprovider --timeout=900 --continue-on-collection-errors", "source_commits": [], "add_only": True},
       "engines": [
         {"name": "E0 core", "path": "vf/core.py", "serves_properties": sorted(CHECKS), "kind_free_text": "obligation pool, z3/cvc5 portfolio, verdict protocol, evidence/replay writer"},
+        {"name": "E2 symrun", "path": "vf/symrun.py", "serves_properties": ["C14", "C18"], "kind_free_text": "runs real code objects on symbolic NumPy scalars / ints with shadowed builtins; decision-prefix path forking; per-path VCs"},
         {"name": "E4 ring", "path": "vf/ring.py", "serves_properties": ["C16"], "kind_free_text": "canonical-form polynomial/rational-function arithmetic with path forking on zero tests"},
       ],
       "checks": checks,
